@@ -32,6 +32,7 @@ def bounds(tier, seed):
         'C_huge_floats': 'saturate, n_frac>=0: +-{2^e, 2^e(1+2^-52), 2^e-ulp : e in %s} u {+-DBL_MAX} x 28 formats x 5 roundings x '
                          '4 routes x 3 carriers' % (BIG_E,),
         'D_complex': 'both components from the quarter-LSB sweep, n_word<=%d' % (2 if tier == 'quick' else 3),
+        'H_interleaved': 'one process visiting 70 formats of mixed signedness / word / n_frac sign forward then backward, all modes, 5 carrier-route pairs',
         'seed_extras': 'seed=%d adds 4 seed-derived bit patterns per word length to B(f)' % seed,
     }
 
@@ -64,6 +65,7 @@ def shards(tier, seed):
     for nw in range(1, (2 if tier == 'quick' else 3) + 1):
         for signed in (True, False):
             out.append({'part': 'D', 'signed': signed, 'nw': nw})
+    out.append({'part': 'H'})
     # big shards first for better load balance; order is deterministic
     return out
 
@@ -267,6 +269,20 @@ def run_shard(sh):
                                     judge_scalar(acc, fmt, rnd, 'saturate', d, cr, rt, 'C')
     elif part == 'D':
         run_complex(acc, sh)
+    elif part == 'H':
+        # formats interleaved in one process (signedness, neighbouring words, n_frac signs), forward then backward,
+        # all modes, a few carriers and routes: state kept between calls would show as an order-dependent code
+        order = []
+        for nw in (1, 2, 3, 4, 7, 8, 9, 15, 16, 17, 31, 32, 33, 52):
+            order += [Fmt(True, nw, 0), Fmt(False, max(1, nw - 1), 0), Fmt(False, nw, -2), Fmt(True, nw + (1 if nw < 52 else 0), nw // 2), Fmt(False, nw, nw + 3)]
+        for fmt in order + order[::-1]:
+            cs = [fmt.lo - 1, fmt.lo, -1, 0, 1, fmt.hi, fmt.hi + 1, fmt.hi + fmt.span]
+            ds = [d for d in (qval(4 * c + off, fmt) for c in cs for off in (-1, 0, 2)) if in_core(d, fmt)]
+            for (r, o) in MODES:
+                judge_array(acc, fmt, r, o, ds, 'H')
+            for d in ds[:6]:
+                for cr, rt in (('int', 'ctor'), ('float', 'setitem'), ('list', 'call'), ('np.int64', 'set_val'), ('decstr', 'ctor')):
+                    judge_scalar(acc, fmt, 'around', 'wrap', d, cr, rt, 'H')
     return acc
 
 
